@@ -38,7 +38,7 @@ func main() {
 		}
 		return true
 	})
-	kinds := []string{"solve-cert", "count", "optimal", "maxsat", "mus", "subset", "bf"}
+	kinds := []string{"solve-cert", "count", "optimal", "maxsat", "mus", "subset", "bf", "bf-dnf"}
 	mismatches := 0
 	groups := 0
 	streams := 0
@@ -47,7 +47,13 @@ func main() {
 		var ts []conc.Task
 		for k := 0; k < 4; k++ {
 			i := (r*4 + k) % len(formulas)
-			t := conc.Task{Kind: kinds[(r+k)%len(kinds)], F: formulas[i], N: ns[i]}
+			kind := kinds[(r+k)%len(kinds)]
+			if r < len(kinds) {
+				// the first rounds run four tasks of the SAME kind: lazily initialised package-level
+				// state of that code path is still cold, so its first use is concurrent
+				kind = kinds[r]
+			}
+			t := conc.Task{Kind: kind, F: formulas[i], N: ns[i]}
 			if t.Kind == "optimal" {
 				for v := 1; v <= ns[i]; v++ {
 					t.Cost = append(t.Cost, v)
@@ -58,11 +64,12 @@ func main() {
 			}
 			ts = append(ts, t)
 		}
+		// concurrent run first: lazily initialised package-level state is still cold in round 0
+		got, _ := conc.RunTogether(ts)
 		solo := make([]string, len(ts))
 		for i, t := range ts {
 			solo[i] = t.Run()
 		}
-		got, _ := conc.RunTogether(ts)
 		groups++
 		for i := range ts {
 			if got[i] != solo[i] {
